@@ -674,35 +674,8 @@ func c05workers(c *Ctx) {
 		})
 	}
 	// semaphore capacities and worker clamps
-	for _, in := range []struct{ rule, pkg, fn, field string }{
-		{"C05.R6", "core/mr", "executeMappers", "workers"},
-		{"C05.R6", "core/fx", "(Stream).walkLimited", "workers"},
-	} {
-		f := c.fn(in.rule, in.pkg, in.fn)
-		if f == nil {
-			continue
-		}
-		ok := false
-		var scan func(fn *ssa.Function)
-		scan = func(fn *ssa.Function) {
-			for _, b := range fn.Blocks {
-				for _, ins := range b.Instrs {
-					if mc, ok2 := ins.(*ssa.MakeChan); ok2 {
-						if et := mc.Type().(*types.Chan).Elem().Underlying(); isEmptyStruct(et) {
-							if sizeFromField(mc.Size, in.field) {
-								ok = true
-							}
-						}
-					}
-				}
-			}
-			for _, a := range fn.AnonFuncs {
-				scan(a)
-			}
-		}
-		scan(f)
-		c.R.Check(ok, in.rule, in.pkg+"."+in.fn+"#capacity", "the worker semaphore is a buffered channel whose capacity is the configured worker count", posOf(c, f), "no make(chan struct{}, <workers>) found", nil, 1)
-	}
+	semaphoreCapacity(c, "C05.R6", "core/mr", "executeMappers", "workers")
+	semaphoreCapacity(c, "C05.R6", "core/fx", "(Stream).walkLimited", "workers")
 	for _, pkg := range []string{"core/mr", "core/fx"} {
 		workersClamp(c, "C05.R6", pkg)
 	}
@@ -1032,4 +1005,33 @@ func workersClamp(c *Ctx, rule, pkg string) {
 		}
 		return true, ""
 	})
+}
+
+// semaphoreCapacity: the worker semaphore of fn is a buffered chan struct{} whose capacity is loaded from the
+// configured-workers field (not from some other quantity that happens to be equal today, e.g. another channel's capacity).
+func semaphoreCapacity(c *Ctx, rule, pkg, fn, field string) {
+	f := c.fn(rule, pkg, fn)
+	if f == nil {
+		return
+	}
+	ok := false
+	var scan func(fn *ssa.Function)
+	scan = func(fn *ssa.Function) {
+		for _, b := range fn.Blocks {
+			for _, ins := range b.Instrs {
+				if mc, ok2 := ins.(*ssa.MakeChan); ok2 {
+					if et := mc.Type().(*types.Chan).Elem().Underlying(); isEmptyStruct(et) {
+						if sizeFromField(mc.Size, field) {
+							ok = true
+						}
+					}
+				}
+			}
+		}
+		for _, a := range fn.AnonFuncs {
+			scan(a)
+		}
+	}
+	scan(f)
+	c.R.Check(ok, rule, pkg+"."+fn+"#capacity", "the worker semaphore is a buffered channel whose capacity is the configured worker count", posOf(c, f), "no make(chan struct{}, <workers>) found: the number of concurrently running workers is no longer tied to the configured count (e.g. sized from another channel's capacity)", nil, 1)
 }
